@@ -31,7 +31,7 @@ case "$cmd" in
     shift 0
     exec bin/vcheck "$@"
     ;;
-  replay|case|probe)
+  replay|case|probe|pcase)
     build ""
     exec bin/vcheck "$@"
     ;;
